@@ -19,6 +19,7 @@ from __future__ import annotations
 
 import copy
 import json
+import os
 import random
 import string
 from types import SimpleNamespace as NS
@@ -360,6 +361,55 @@ def check_sanitiser(text, sess):
             sess.nontrivial.add(chash(("rej", str(out)[:40])))
 
 
+def check_llm_planner(text, sess):
+    """plan_with_llm end to end: a fixture adapter replays hostile completions; the planner output must be the
+    fallback or an object inside the documented limits, and nothing may escape."""
+    import clematis.engine.stages.t3.policy as pol
+    import clematis.adapters.llm as llm
+    from vlib.harness import tmpdir
+    import jsonschema
+
+    ctx = NS(turn_id=3, agent_id="A", cfg={})
+    with tmpdir("c13llm_") as d:
+        fx = os.path.join(d, "fx.jsonl")
+        key = llm._prompt_hash(pol.make_planner_prompt(ctx))
+        with open(fx, "w", encoding="utf-8") as f:
+            f.write(json.dumps({"prompt_hash": key, "completion": text}) + "\n")
+        cfg = {"t3": {"backend": "llm", "llm": {"provider": "fixture", "max_tokens": 100000, "fixtures": {"enabled": True, "path": fx}}}}
+        state = NS(logs=[])
+        old_ci = os.environ.get("CI")
+        os.environ["CI"] = "true"
+        try:
+            out = pol.plan_with_llm(ctx, state, cfg)
+            ro = pol.run_policy({"name": "llm", "meta": {}}, {}, cfg, ctx, state=state)
+        except BaseException as ex:
+            sess.violation("llm-planner-raises:" + type(ex).__name__, {"text": text[:300], "len": len(text)}, repr(ex)[:200])
+            return
+        finally:
+            if old_ci is None:
+                os.environ.pop("CI", None)
+            else:
+                os.environ["CI"] = old_ci
+    sess.evaluations += 1
+    sess.count("llm_planner_calls")
+    case = {"text": text[:300], "len": len(text)}
+    if not isinstance(out, dict) or "plan" not in out or "rationale" not in out:
+        sess.violation("llm-planner-output-shape", case, repr(out)[:200])
+        return
+    if out.get("rationale", "").startswith("fallback:") and out["plan"] == []:
+        sess.count("llm_planner_fallbacks")
+        return
+    sess.count("llm_planner_accepted")
+    try:
+        jsonschema.validate({k: v for k, v in out.items()}, MY_SCHEMA)
+    except jsonschema.ValidationError as ve:
+        sess.violation("llm-planner-accepted-plan-outside-limits", case, str(ve.message)[:200])
+    if list(ro.get("plan", [])) != list(out["plan"]):
+        sess.violation("run_policy-differs-from-planner", case, None)
+    if bool(getattr(state, "_planner_reflection_flag", False)) != bool(out.get("reflection", False)):
+        sess.violation("planner-reflection-flag-not-stashed", case, None)
+
+
 # ------------------------------------------------------------------------------ real turns
 def check_turns(rng, sess):
     import clematis.engine.orchestrator as orch
@@ -436,8 +486,11 @@ def _chunk(args):
             for _ in range(n):
                 check_speak(rng, sess)
         elif what == "san":
-            for _ in range(n):
-                check_sanitiser(gen_text(rng), sess)
+            for j in range(n):
+                t_ = gen_text(rng)
+                check_sanitiser(t_, sess)
+                if j % 8 == 0 and len(t_) < 30000:
+                    check_llm_planner(t_, sess)
             try:
                 from hypothesis import given, settings, strategies as st, HealthCheck
 
@@ -483,6 +536,9 @@ def main(tier: str, seed: int):
     sess.require("sanitiser_accepted", 100)
     sess.require("sanitiser_rejected", 1000)
     sess.require("real_turns", 50)
+    sess.require("llm_planner_calls", 200)
+    sess.require("llm_planner_accepted", 5)
+    sess.require("llm_planner_fallbacks", 50)
     sess.require("turns_with_refinement_retrieval", 5)
     sess.finish()
 
